@@ -171,6 +171,7 @@ def shards(tier, seed):
            dict(shard=1, seed=seed, mode="two", variant="other-sender"),
            dict(shard=2, seed=seed, mode="two", variant="other-channel"),
            dict(shard=3, seed=seed, mode="two", variant="other-port"),
+           dict(shard=5, seed=seed, mode="two", variant="other-scope"),
            dict(shard=4, seed=seed, mode="bursts")]
     k = 4 if tier == "quick" else 16
     n = 40 if tier == "quick" else 3000
@@ -217,6 +218,10 @@ def run(spec, ctx):
                                 k1, k2 = (a1, False), (addr_for(next(fresh)), False)
                             elif spec["variant"] == "other-port":
                                 k1, k2 = (a1, False), ((a1[0], a1[1] + 1), False)
+                            elif spec["variant"] == "other-scope":
+                                # one link-local address behind two interfaces: the socket addresses differ in the scope id only
+                                ll = f"fe80::{next(fresh):x}"
+                                k1, k2 = ((ll, 30490, 0, 2), False), ((ll, 30490, 0, 3), False)
                             else:
                                 k1, k2 = (a1, False), (a1, True)
                             hist = []
